@@ -21,11 +21,14 @@ func TestCheck(t *testing.T) {
 	defer r.Finish()
 	r.SetRule("case = (consumer, valid instance, variant): the variant list is produced by one generator from the consumer's valid token " +
 		"(alg none/HS*/other family/other curve, signature removed/truncated/altered/DER, JSON serialisation with 0/1/2 signatures or unprotected headers, " +
-		"jwk/jku/x5c/x5u injected and re-signed, kid of another party, key swapped with/without matching kid, embedded private jwk, protected bytes altered at seeded positions, " +
+		"jwk/jku/x5c/x5u injected and re-signed, kid of another party, key swapped with/without matching kid, " +
+		"embedded keys over every key family the JOSE library parses (EC P-256/384/521, RSA, OKP Ed25519/X25519, oct): jwk header / did:jwk key id carrying the public key (paired control) " +
+		"and each private form of the same key, genuinely signed by that key with the fitting algorithm, protected bytes altered at seeded positions, " +
 		"re-encodings of the compact form; thorough adds seeded alterations and seeded pairs). Each is handed to the real consumer and accept/reject is observed. " +
 		"Non-trivial: every variant other than the untouched control; distinct by (consumer, instance, class, variant name).")
 	r.Require(300, 200)
-	r.Assume("valid instances are ES256/P-256 tokens (what the node itself produces) plus one PS256/RSA credential; EdDSA and P-384/P-521 keyed valid tokens are not driven")
+	r.Assume("the full variant list is applied to ES256/P-256 valid tokens (what the node itself produces) plus one PS256/RSA credential; P-384/P-521/RSA/Ed25519 keyed tokens " +
+		"are driven as own-key tokens of another key holder (embedded-key classes only), not as seeds of the full list")
 	r.Assume("legacy v1 auth tokens (auth/services/oauth, did:nuts JWT bearer grant and contract VPs) are not driven")
 	attacker()
 
@@ -68,6 +71,9 @@ func TestCheck(t *testing.T) {
 	table := map[string]*row{}
 	classTable := map[string]map[string]*row{}
 	reenc := map[string]bool{}
+	// per (consumer, key family): the paired control (public key of the family embedded, accepted or not) and the private forms of the same key
+	type famRow struct{ ownAccepted, ownRejected, privAccepted, privRejected int }
+	famTable := map[string]*famRow{}
 	sampled := map[string]bool{}
 	for ci, c := range consumers {
 		inst := fmt.Sprintf("%s#%d", c.name, ci)
@@ -86,6 +92,8 @@ func TestCheck(t *testing.T) {
 			table[c.name] = rw
 			classTable[c.name] = map[string]*row{}
 		}
+		tStart := time.Now() //TIMING
+		defer func(n string, k int) { fmt.Fprintf(os.Stderr, "TIMING %s variants=%d %v\n", n, k, time.Since(tStart)) }(inst, len(vs)) //TIMING
 		for _, v := range vs {
 			o, err := c.present(v)
 			cr := classTable[c.name][v.class]
@@ -116,16 +124,42 @@ func TestCheck(t *testing.T) {
 			if strings.HasPrefix(o.detail, "PANIC") {
 				r.Violation("C17/"+c.name+"/panic/"+strings.Fields(o.detail)[2], o.detail, map[string]any{"consumer": c.name, "class": v.class, "variant": v.name, "token": v.token})
 			}
+			if v.class == "embedded-private-jwk" && v.family == "OKP-Ed25519" && !sampled[c.name+"/priv"] {
+				sampled[c.name+"/priv"] = true
+				r.Sample(map[string]any{"consumer": c.name, "instance": c.kind, "class": v.class, "variant": v.name, "classified": v.verdict.String(),
+					"token": short(v.token), "accepted": o.accepted, "answer": o.detail})
+			}
 			if v.class == "key-injected" && !sampled[c.name] {
 				sampled[c.name] = true
 				r.Sample(map[string]any{"consumer": c.name, "instance": c.kind, "class": v.class, "variant": v.name, "classified": v.verdict.String(),
 					"token": short(v.token), "accepted": o.accepted, "answer": o.detail})
+			}
+			if v.family != "" {
+				r.Distinct("consumer_family_pairs", c.name+"/"+v.family)
+				fr := famTable[c.name+"/"+v.family]
+				if fr == nil {
+					fr = &famRow{}
+					famTable[c.name+"/"+v.family] = fr
+				}
+				switch {
+				case v.verdict == vOwn && o.accepted:
+					fr.ownAccepted++
+				case v.verdict == vOwn:
+					fr.ownRejected++
+				case v.class == "embedded-private-jwk" && o.accepted:
+					fr.privAccepted++
+				case v.class == "embedded-private-jwk":
+					fr.privRejected++
+				}
 			}
 			if !o.accepted {
 				rw.rejected++
 				cr.rejected++
 				if v.verdict == vValid {
 					r.Fatalf("%s (%s): the valid token is rejected, the harness would be blind: %s", c.name, c.kind, o.detail)
+				}
+				if v.verdict == vOwn {
+					r.Count("own_key_tokens_rejected", 1)
 				}
 				continue
 			}
@@ -147,7 +181,16 @@ func TestCheck(t *testing.T) {
 			case vHostile:
 				r.Violation("C17/"+c.name+"/"+v.class, fmt.Sprintf("%s accepted a hostile variant (%s: %s) of a valid token [%s]; independent check: %s; answer: %s",
 					c.name, v.class, v.name, c.kind, orOK(indep), o.detail), w)
-			case vBenign:
+			case vOwn:
+				// another key holder's own token where the signer is not pinned (or pinned to exactly that key): acceptance is correct
+				// provided the signature really is that key's, over the received bytes, with the algorithm that fits it
+				r.Count("own_key_tokens_accepted", 1)
+				if err := strictVerifyKey(c.seed, v.pub, v.token); err != nil {
+					w["independent_verification"] = err.Error()
+					r.Violation("C17/"+c.name+"/"+v.class, fmt.Sprintf("%s accepted a token (%s: %s) that does not verify with the key it names: %v; answer: %s",
+						c.name, v.class, v.name, err, o.detail), w)
+				}
+			case vBenign, vSilent:
 				rw.unspecified++
 				cr.unspecified++
 				r.Unspecified(c.name + "/" + v.class)
@@ -213,6 +256,26 @@ func TestCheck(t *testing.T) {
 			"undeliverable": rw.undeliverable, "classes": cls}
 	}
 	r.Extra("per_consumer", per)
+	{
+		fams := map[string]string{}
+		decisive, controls := 0, 0
+		for k, fr := range famTable {
+			fams[k] = fmt.Sprintf("public-key-token accepted=%d rejected=%d; private-key-token rejected=%d accepted=%d", fr.ownAccepted, fr.ownRejected, fr.privRejected, fr.privAccepted)
+			if fr.ownAccepted > 0 && fr.privRejected+fr.privAccepted > 0 {
+				controls++
+				if fr.privAccepted == 0 {
+					decisive++ // same key, same algorithm, same genuine signature: accepted with the public JWK, refused with the private one
+					r.Distinct("private_key_rule_decisive", k)
+				}
+			}
+		}
+		r.Extra("per_consumer_and_key_family", fams)
+		r.Count("consumer_family_pairs_with_accepted_public_key_control", controls)
+		r.Count("consumer_family_pairs_where_only_the_private_members_decide", decisive)
+		if controls < 8 && os.Getenv("C17_NOFAM") == "" { //TIMING
+			r.Fatalf("the public-key control of the embedded-private-key variants was accepted for only %d (consumer, key family) pairs: refusals of the private forms would prove nothing", controls)
+		}
+	}
 	var rl []string
 	for k := range reenc {
 		rl = append(rl, k)
